@@ -104,6 +104,8 @@ pub fn decls() -> Vec<(&'static str, Vec<(String, Dom)>, Vec<SrcCons>)> {
         // an integer range with exactly one admissible value, and a huge but finite range
         ("x:Int(1,1)", bc(Dom::Int(1, 1)), vec![]),
         ("x:Real(-1e18,1e18)+row", bc(Dom::Real(-1e18, 1e18)), vec![row(bin(BinOp::Add, var("x"), var("b")), Rel::Le, 2.0)]),
+        // rows that cancel to a constant comparison which holds (x = x, 0 * b <= 1) next to an integer variable
+        ("x:Int(-2,2)+rows-that-cancel", bc(Dom::Int(-2, 2)), vec![SrcCons { lhs: var("x"), rel: Rel::Eq, rhs: var("x"), bare: false, name: String::new() }, row(bin(BinOp::Sub, var("b"), var("b")), Rel::Le, 1.0)]),
     ]
 }
 
@@ -132,6 +134,13 @@ pub fn family_a(i: u64, depth: usize, quick: bool) -> Case {
 /// (k = 0: single-point integer range, k = 1: huge finite range)
 pub fn family_ax_size() -> u64 {
     cores().len() as u64 * CTX_NAMES.len() as u64 * 3 * RHS.len() as u64 * 2
+}
+pub fn family_ax0_size() -> u64 {
+    cores().len() as u64 * 3 * RHS.len() as u64 * 2
+}
+/// the same without context chains
+pub fn family_ax0(i: u64, k: usize) -> Case {
+    family_a_with(i, 0, decls().into_iter().skip(BASE_DECLS + k).take(1).collect(), RHS.to_vec())
 }
 pub fn family_ax(i: u64, k: usize) -> Case {
     let mut c = family_a_with(i, 1, decls().into_iter().skip(BASE_DECLS + k).take(1).collect(), RHS.to_vec());
@@ -640,7 +649,7 @@ pub fn run(mut run: Run) -> ! {
     run.case_timeout_s = 60.0;
     let quick = run.quick();
     let depth = if quick { 1 } else { 2 };
-    run.rule = format!("Model values built through the public constructors (usage marks as the transformer sets them): family A = {} cores (abs/min/max nests, logic values in arithmetic, dominated and equal operands) x every chain of <= {depth} contexts from 13 (positive/negative/zero scale, negation, subtraction on either side, division by +-2, abs, min, max, minus x) x 3 relations x 7 constants (incl. the ends +-3 of the declared ranges) x both sides x 8 declaration forms (declared, row-derived, scaled-row-derived, unbounded, half-bounded, integer), family AX = the same at depth <= 1 over two more declaration forms (single-point integer range, finite range of +-1e18 with a bounding row); family B = every logic tree with <= 2 operator nodes over b,c,d,0,1 (incl. n-ary and empty and/or), plus every binary logic operator over operands with 0, 1 or 2 negations and every nesting of two binary logic operators over three variables (plain and negated), x bare assertion and 30 comparison forms; family C = 12 bound feeders x 15 consumers; family D = 14 cores over three variables with different ranges (x real, w real, y real or integer; min/max with three operands, nested blocks, sums of blocks) in every context (thorough) x 3 relations x (6 constants incl. the range ends of w and y, or the variable w) x both sides, decided for every real x on every grid line of the other continuous variables; each compiled model is decided exactly: all assignments of the discrete variables x every cell (breakpoints, midpoints, beyond-ends) of the region partition of the continuous one; distinct = model text; non-trivial = compiled with at least one auxiliary or changed row count", cores().len());
+    run.rule = format!("Model values built through the public constructors (usage marks as the transformer sets them): family A = {} cores (abs/min/max nests, logic values in arithmetic, dominated and equal operands) x every chain of <= {depth} contexts from 13 (positive/negative/zero scale, negation, subtraction on either side, division by +-2, abs, min, max, minus x) x 3 relations x 7 constants (incl. the ends +-3 of the declared ranges) x both sides x 8 declaration forms (declared, row-derived, scaled-row-derived, unbounded, half-bounded, integer), family AX = the same at depth <= 1 over two more declaration forms (single-point integer range, finite range of +-1e18 with a bounding row, an integer range next to rows that cancel to a true constant comparison); family B = every logic tree with <= 2 operator nodes over b,c,d,0,1 (incl. n-ary and empty and/or), plus every binary logic operator over operands with 0, 1 or 2 negations and every nesting of two binary logic operators over three variables (plain and negated), x bare assertion and 30 comparison forms; family C = 12 bound feeders x 15 consumers; family D = 14 cores over three variables with different ranges (x real, w real, y real or integer; min/max with three operands, nested blocks, sums of blocks) in every context (thorough) x 3 relations x (6 constants incl. the range ends of w and y, or the variable w) x both sides, decided for every real x on every grid line of the other continuous variables; each compiled model is decided exactly: all assignments of the discrete variables x every cell (breakpoints, midpoints, beyond-ends) of the region partition of the continuous one; distinct = model text; non-trivial = compiled with at least one auxiliary or changed row count", cores().len());
     run.assume("exact source semantics (refsem) and exact projection of the linear model: integer auxiliaries enumerated, continuous auxiliaries by exact LP; the projection's interval endpoints are added to the test points, so S = L is decided on the whole real line of one continuous variable; extra continuous variables are checked on a 9-point rational grid (slice mode)");
     run.assume("models in which the continuous variable occurs under a logic operator, or whose source is undefined at a test point, are skipped and counted");
     let sa = family_a_size(depth, quick);
@@ -649,6 +658,11 @@ pub fn run(mut run: Run) -> ! {
         check_case(&c, l);
     });
     run.family("AX-single-point-integer-range", family_ax_size(), |i, l| check_case(&family_ax(i, 0), l));
+    if quick {
+        run.family("AXC-rows-that-cancel", family_ax0_size(), |i, l| check_case(&family_ax0(i, 2), l));
+    } else {
+        run.family("AXC-rows-that-cancel", family_ax_size(), |i, l| check_case(&family_ax(i, 2), l));
+    }
     if !quick {
         run.family("AXH-huge-finite-range", family_ax_size(), |i, l| check_case(&family_ax(i, 1), l));
     }
